@@ -131,7 +131,7 @@ func checkC09(p *Prog, r *Report) {
 	r.rule("C09.L3", "FEC header: seqid u32 @0 and type u16 @4 (little endian) with types 0xF1/0xF2/0xF3 as in the README; accessors use 0/4/6; the size field at payloadOffset holds len(payload)+2 and payloadOffset = headerOffset + fecHeaderSize; the receiver strips fecHeaderSize+2", 9)
 	r.rule("C09.L5", "every function that writes the encoder's next id into a header advances it by one modulo paws afterwards; the OOB sealer writes the reserved id and does not advance", 3)
 	r.rule("C09.L6", "in encode: one sealData per call; when the group is complete every path runs exactly one of {seal every parity shard, skipParity()}, the parity slice is shardCache[dataShards:], and the group counters are reset", 3)
-	r.rule("C09.L7", "every BlockCrypt.Encrypt / aeadCrypt.Seal in the output path is preceded on every path by fillRand on the nonce prefix of the same buffer, with no other encryption of that buffer in between", 4)
+	r.rule("C09.L7", "every BlockCrypt.Encrypt / aeadCrypt.Seal in the output path (postProcess and the helpers it calls) is preceded on every path by fillRand on the nonce prefix of the same buffer, with no other encryption of that buffer in between", 3)
 	r.rule("C09.L9", "parity is computed over the zero-padded size-prefixed payloads: size prefix written before the copy into the group, tails cleared to maxSize, shards cut [payloadOffset:maxSize], maxSize per group (= C07.F2 encode side, C07.F6)", 6)
 	r.rule("C09.L8", "the entropy sources advance their state on every Read before producing output, inside their mutex", 2)
 	{
@@ -150,6 +150,31 @@ func checkC09(p *Prog, r *Report) {
 		}
 	}
 
+	// the checksum algorithm and its coverage are part of the documented frame (README: CRC32, IEEE): = C06.I1 (CRC gate
+	// recognised only for crc32.ChecksumIEEE) and C06.I4 (coverage, writer/reader agreement)
+	delegate(p, r, "C06", checkC06, "C06.I4", "C09.L4")
+	delegate(p, r, "C06", checkC06, "C06.I1", "C09.L4")
+	// every advance of the encoder id (skipParity included) is reduced modulo paws: = C12.K5
+	{
+		key := "delegate:C12:" + r.curCfg
+		sub, _ := p.memo[key].(*Report)
+		if sub == nil {
+			sub = newReport("C12", r.Tier)
+			sub.curCfg = r.curCfg
+			checkC12(p, sub)
+			p.memo[key] = sub
+		}
+		for _, o := range sub.Obs {
+			if o.Rule != "C12.K5" || !strings.Contains(o.Construct, "fecEncoder.next") {
+				continue
+			}
+			if o.Status == Discharged {
+				r.ok("C09.L5", o.Func, o.Pos, o.Construct, o.Detail)
+			} else {
+				r.bad("C09.L5", o.Func, o.Pos, o.Construct, o.Detail+": an id outside [0, paws) goes on the wire (for some ratios the value reserved for out-of-band packets), ids repeat or are skipped within a wrap period", o.Witness)
+			}
+		}
+	}
 	checkKCPHeaderLayout(p, r)
 	checkCommands(p, r)
 	checkFECLayout(p, r)
@@ -285,6 +310,17 @@ func checkKCPHeaderLayout(p *Prog, r *Report) {
 	var pt []layoutField
 	for _, x := range reads {
 		name := fieldOf[x.v]
+		if name == "" {
+			// a header field that is parsed into a local of the field's name but not stored
+			// with the segment (conv, cmd, wnd, una need not be kept) is still the same field
+			if st := structOf(p.Named("segment").Underlying()); st != nil {
+				for i := 0; i < st.NumFields(); i++ {
+					if st.Field(i).Name() == x.v.Name() {
+						name = x.v.Name()
+					}
+				}
+			}
+		}
 		if name == "" {
 			name = "?" + x.v.Name()
 		}
@@ -932,7 +968,28 @@ func checkTypePosition(p *Prog, r *Report) {
 }
 
 func checkNonceBeforeEncrypt(p *Prog, r *Report) {
-	fi := p.FuncByName("(*UDPSession).postProcess")
+	pp := p.FuncByName("(*UDPSession).postProcess")
+	n := checkNonceBeforeEncryptIn(p, r, pp)
+	// helpers of the output path that encrypt (an extracted seal function) obey the same rule
+	var hs []*FuncInfo
+	for h := range p.TransEffects(pp).Funcs {
+		if h != pp && h.Decl != nil && rootFuncInfo(h) == h {
+			hs = append(hs, h)
+		}
+	}
+	sort.Slice(hs, func(i, j int) bool { return hs[i].Name < hs[j].Name })
+	for _, h := range hs {
+		if recvTypeName(h.Obj) == "blockCrypt" || recvTypeName(h.Obj) == "aeadCrypt" || recvTypeName(h.Obj) == "salsa20BlockCrypt" || recvTypeName(h.Obj) == "simpleXORBlockCrypt" || recvTypeName(h.Obj) == "noneBlockCrypt" {
+			continue // the ciphers themselves
+		}
+		n += checkNonceBeforeEncryptIn(p, r, h)
+	}
+	if n == 0 {
+		r.bad("C09.L7", pp.Name, p.Pos(pp.Node), "encryption sites", "no Encrypt/Seal call in the output path", "")
+	}
+}
+
+func checkNonceBeforeEncryptIn(p *Prog, r *Report, fi *FuncInfo) int {
 	c := p.CFG(fi)
 	fa := p.FactsOf(fi)
 	fill := p.Func("fillRand")
@@ -960,8 +1017,7 @@ func checkNonceBeforeEncrypt(p *Prog, r *Report) {
 		}
 	}
 	if len(sites) == 0 {
-		r.bad("C09.L7", fi.Name, p.Pos(fi.Node), "encryption sites", "no Encrypt/Seal call in postProcess", "")
-		return
+		return 0
 	}
 	for _, es := range sites {
 		ept, _ := c.PointOf(es.call)
@@ -995,6 +1051,7 @@ func checkNonceBeforeEncrypt(p *Prog, r *Report) {
 			r.ok("C09.L7", fi.Name, p.Pos(es.call), construct, "fillRand on the nonce prefix of the same buffer precedes it on every path, once per encryption")
 		}
 	}
+	return len(sites)
 }
 
 func checkEntropyAdvance(p *Prog, r *Report) {
